@@ -414,6 +414,216 @@ PROPS = {
      'partial': ['precheck_total only modulo lax (documented requirements the library does not test)',
                  'EV forests: canonical form after an error checked by duplicate search + model evaluation, not by Dump.check',
                  'old-style operations (PRE_PLUS, POST_PLUS, TC_POST_IMAGE, MM_MULTIPLY, constrained/transitive closure) are not in the table']},
+    "C03": {'title': 'Functions built from minterms, constants and variables evaluate as specified',
+     'theorems': ['Meddly.DD.canon',
+                  'Meddly.Dump.check_sound',
+                  'Meddly.Dump.unfold_inj',
+                  'Meddly.Dump.evalFast_eq_evalChild',
+                  'Meddly.DD.apply2_eval',
+                  'Meddly.DD.apply2_red',
+                  'Meddly.DD.mkNode_red',
+                  'Meddly.Build.buildColl_sem',
+                  'Meddly.Build.buildColl_eval',
+                  'Meddly.Build.buildColl_red',
+                  'Meddly.Build.buildColl_perm',
+                  'Meddly.Build.semColl_eq_spec',
+                  'Meddly.Build.buildMinterm_eval',
+                  'Meddly.Build.buildMinterm_red',
+                  'Meddly.Build.buildSet_single',
+                  'Meddly.Build.constant_eval',
+                  'Meddly.Build.constant_red',
+                  'Meddly.Build.edgeForVar_eval',
+                  'Meddly.Build.edgeForVar_red',
+                  'Meddly.Build.buildFunctionMax_int',
+                  'Meddly.Build.buildFunctionMin_evplus',
+                  'Meddly.EvalWalk.evalWalk_eq_den',
+                  'Meddly.EvalWalk.evaluate_congr',
+                  'Meddly.EvalWalk.walkIdent_eq_eval',
+                  'Meddly.EvalWalk.walkJump_eq_eval',
+                  'Meddly.Spec.finalizeMaxInf_eq',
+                  'Meddly.Spec.finalizeMinInf_eq',
+                  'Meddly.Spec.semiLat_maxInf',
+                  'Meddly.Spec.semiLat_minInf'],
+     'quick': [{'family': 'build', 'flavor': 'plain', 'args': {}}],
+     'thorough': [{'family': 'build', 'flavor': 'asan', 'args': {}}],
+     'leanchecker': ['MeddlyModel.Ops.Build', 'MeddlyModel.Ops.EvalWalk', 'MeddlyModel.Spec.Minterms'],
+     'design_ref': 'DESIGN.md §5 C03',
+     'level_text': 'Lean model of the builders on decision-diagram trees, node by node as minterms.cc builds them (setPathToBottom / relPathToBottom / '
+                   "identityPattern / createEdgeSet / createEdgeRel: partition by the entry at each level, a Cp node per unprimed value, don't-care and "
+                   "don't-change groups accumulated by the element-wise max/min = apply2; every node through mkNode = createReducedNode), for every shape (any "
+                   'number of variables, sizes >= 2, fully / quasi / identity reduced, sets and relations), every value type with a '
+                   'commutative-associative-idempotent max/min (instances: Int, Int with +infinity for EV+, Bool) and every finite collection with any mix of '
+                   "fixed / don't-care / don't-change entries. Theorems: buildColl_sem (the tree evaluates to the code-mirroring recursion semColl at every "
+                   'assignment, contract or not), buildColl_eval (under the documented contract default<=values / >=values it is the specification: max/min over '
+                   'the matching minterms, default elsewhere), buildColl_red + buildColl_perm (reduced form; independent of the order of the collection, by '
+                   'DD.canon), buildMinterm_eval, constant_eval, edgeForVar_eval (primed and unprimed, with and without terms), evalWalk_eq_den (the three walks '
+                   'of dd_edge::evaluate compute the denotation and nothing else); a decided witness shows the contract guard is needed. Tie: differential runs of '
+                   'the real buildFunction / buildFunctionMax / buildFunctionMin / createConstant / createEdgeForVar over random domains (1..5 variables, sizes '
+                   '2..4), every forest kind (MT bool/int/real, EV+, EV*, all rules) and random policies: dd_edge::evaluate at EVERY assignment against specColl '
+                   '(inside the contract) or semColl (outside: the model reproduces what the code returns there), the dumped node store certified reduced and '
+                   "re-evaluated by the model's eval, shuffled collections must give the identical edge; exhaustive sub-tier: all collections of <= 2 minterms "
+                   'over (2,2) sets and (2) relations, MT bool/int, all rules, max and min, on- and off-contract defaults.',
+     'level_note': 'Theorems are about the Lean tree model; the tie to /repo is the sampled + exhaustive-core correspondence run. EV+/EV* forests are modelled as '
+                   'trees of values (edge-value normalisation and the accumulation in evaluate are compared through the dump by the acceptor, not proved). Reals '
+                   "stay on an exactness-safe grid. FINDING (genuine defect, see known_findings / NOTES): a minterm whose value is the forest's transparent value "
+                   'built with a transparent default makes setPathToBottom/relPathToBottom pass an unwritten sparse slot to createReducedNode; the generators '
+                   'steer away from exactly that trigger while the defect is present (auto-detected), the probe run reproduces it.',
+     'technique': 'Lean 4 proof (induction on positions / variables over a reduced-tree invariant; contract theorem by a per-minterm accumulation algebra) + '
+                  'differential correspondence at every assignment + verified certificate of the dumped structure',
+     'partial': ['reals on the exactness-safe grid only',
+                 'EV+/EV* edge-value normalisation not modelled (compared via dump evaluation)',
+                 'illegal minterms (DONT_CHANGE with a fixed unprimed value set bypassing setVars, out-of-range entries) not modelled']},
+    "C08": {'title': 'Reachability operations return exactly the least fixed point',
+     'theorems': ['Meddly.Reach.lfpIter_spec',
+                  'Meddly.Reach.bfs_nofrontier_eq_lfp',
+                  'Meddly.Reach.bfs_frontier_eq_lfp',
+                  'Meddly.Reach.bfs_algorithms_agree',
+                  'Meddly.Reach.pre_eq_post_conv',
+                  'Meddly.Reach.bfs_backward_spec',
+                  'Meddly.Reach.dist_eq_shortest',
+                  'Meddly.Reach.dist_none_iff',
+                  'Meddly.Reach.dist_nofrontier_eq_dist',
+                  'Meddly.Reach.chaotic_eq_lfp',
+                  'Meddly.Reach.split_union',
+                  'Meddly.Reach.reachable_split',
+                  'Meddly.Reach.saturation_schedule_correct',
+                  'Meddly.Reach.satur_eq_lfp_partial',
+                  'Meddly.Spec.ReachTables.reachList_spec',
+                  'Meddly.Spec.ReachTables.distList_spec'],
+     'quick': [{'family': 'reach', 'flavor': 'plain', 'args': {}}],
+     'thorough': [{'family': 'reach', 'flavor': 'asan', 'args': {}}],
+     'leanchecker': ['MeddlyModel.Ops.Reach', 'MeddlyModel.Spec.ReachTables'],
+     'design_ref': 'DESIGN.md §5 C08',
+     'level_text': 'Lean theorems over an arbitrary finite state space (any enumeration `states` of a type with decidable equality, any relation, any initial '
+                   'set): lfpIter_spec (|states| rounds of S -> init u S u post R S hold exactly the reflexive-transitive closure), bfs_nofrontier_eq_lfp / '
+                   'bfs_frontier_eq_lfp (the two loops of reach_trad.cc, modelled step for step with their own stop tests, STOP within |states|+1 rounds and '
+                   'return that identical canonical set; backward = forward on the converse relation, bfs_backward_spec), dist_eq_shortest / dist_none_iff '
+                   "(distance = least path length, 'unreachable' exactly off the closure) and dist_nofrontier_eq_dist (the no-frontier loop over (min,+1) as run "
+                   "for MT-integer and EV+ sets stops and returns those distances), split_union / reachable_split (fillSplit's split by common diagonal denotes "
+                   'the relation up to self-loops) and chaotic_eq_lfp / saturation_schedule_correct (ANY order of firing the pieces that ends closed under every '
+                   'piece ends in exactly the reachable set). Tie: differential runs of REACHABLE_TRAD_FS, REACHABLE_TRAD_NOFS, REACHABLE_SATUR(.,1), forward and '
+                   'backward, on explicit relations (events with identity-skipped levels, non-trivial top-level diagonals, self-loops, nondeterminism, dead ends, '
+                   'chains, empty/full) and initial sets over 11-18 domain shapes, boolean / MT-integer-distance / EV+-distance sets (fully and quasi), relation '
+                   'forests of all three rules, random storage / memory-manager / deletion policies, successive calls with different relations in the same forests '
+                   "with warm and cleared compute tables, results compared with the specification tables, pairwise == of the algorithms' results, operands "
+                   're-read, result and relation forests certified after the calls; plus the exhaustive tier: all 16 relations x 4 initial sets on a 2-state '
+                   'domain x every algorithm x both directions x 15 forest combinations.',
+     'level_note': 'The decision-diagram recursion of saturation (saturate_1 / recFire, their compute-table entries, the explorer objects) is NOT modelled: for '
+                   'saturation the theorems cover the split and scheduling independence, the rest is the differential tie. Known defects of the library (F4 stale '
+                   'satfire entries, F5 quasi-reduced relation forests, F7 fully-reduced relation forests with off-diagonal edges over the common diagonal, F8 '
+                   'NOFS with a non-fully-reduced MT-integer result forest, F9 BFS with the initial set in another forest than the result, F10 saturation on '
+                   'MT-integer sets with a distance-0 state; F6 is auto-detected) are steered around by the generator (harness option --allow lifts the steering) '
+                   "and re-probed on every run in forked children at cases 900000+; the probes' diffs are matched by known_findings.jsonl. The steering predicates "
+                   '(f6Trigger, f7Trigger in harness/fam_reach.cc) are themselves validated on every run: outside them every saturation result must match the '
+                   'specification.',
+     'technique': 'Lean 4 proof (monotone growth / pigeonhole for termination, loop invariants, chaotic iteration) + differential correspondence with the closure '
+                  'oracle + exhaustive 2-state tier + tagged probes of known triggers',
+     'partial': ["saturation's DD-level recursion and its compute-table use are not modelled (split + schedule independence are proved)",
+                 'deprecated names REACHABLE_STATES_BFS/DFS are compiled out in this tree (ALLOW_DEPRECATED_0_18_1 undefined): not exercised'],
+     'rule': 'cases 0..N-1: random scenarios from (seed, case); cases 800000..: exhaustive 2-state tier; cases 900000..: fixed probes of known trigger classes '
+             '(forked)'},
+    "C13": {'title': 'Variable reordering preserves every function and every held edge',
+     'theorems': ['Meddly.DD.canon',
+                  'Meddly.Dump.check_sound',
+                  'Meddly.Dump.unfold_inj',
+                  'Meddly.Dump.evalFast_eq_evalChild',
+                  'Meddly.Reorder.swap_reduces_inversions',
+                  'Meddly.Reorder.schedule_bound',
+                  'Meddly.Reorder.maximal_schedule_reaches_target',
+                  'Meddly.Reorder.schedule_terminates_at_target',
+                  'Meddly.Reorder.swap_preserves_varfunction',
+                  'Meddly.Reorder.reorder_preserves_function',
+                  'Meddly.Reorder.reorder_preserves_reduced',
+                  'Meddly.DD.swapAdjDD_eval',
+                  'Meddly.DD.swapAdjDD_red',
+                  'Meddly.DD.swap_canonical',
+                  'Meddly.DD.swap_swap',
+                  'Meddly.DD.relSwap_four_level_swaps_partial',
+                  'Meddly.DD.mkNode_red'],
+     'quick': [{'family': 'reorder', 'flavor': 'plain', 'args': {}}, {'family': 'reorder', 'flavor': 'asan', 'args': {'cases': 110}}],
+     'thorough': [{'family': 'reorder', 'flavor': 'plain', 'args': {}}, {'family': 'reorder', 'flavor': 'asan', 'args': {'cases': 300}}],
+     'leanchecker': ['MeddlyModel.Ops.Reorder'],
+     'design_ref': 'DESIGN.md §5 C13',
+     'level_text': 'Orders: every swap of an adjacent inversion (the test the heuristics apply to var2level of the target) removes exactly one inversion '
+                   '(swap_reduces_inversions); a schedule of adjacent inversions has at most `inversions` swaps, one that cannot be continued IS at the target '
+                   'order, and any picker that only swaps adjacent inversions and stops only when there is none ends at the target, whatever it picks '
+                   '(schedule_bound, maximal_schedule_reaches_target, schedule_terminates_at_target). Trees (fully- and quasi-reduced multi-terminal set forests, '
+                   "any domain and sizes): swapAdjDD rebuilds the two exchanged levels from the cofactors through the model's createReducedNode; swapAdjDD_eval: "
+                   'it denotes the old function with the two positions exchanged; swapAdjDD_red + swap_canonical (via DD.canon): it is THE reduced tree of that '
+                   'function, so in-place overwriting without duplicate detection cannot create duplicates and equality of held edges is preserved; swap_swap: '
+                   'undoing a swap restores the tree; reorder_preserves_function / reorder_preserves_reduced: ANY list of adjacent swaps (every heuristic, '
+                   "including lowest_memory's tentative swaps) leaves the function OF THE VARIABLES of every tree unchanged and the tree reduced for the current "
+                   'order. Tie: the real reorderVariables is driven for every permutation of <=3 (quick) / <=4 and, in a third of the 5-variable cases, 5 '
+                   '(thorough) variables and sampled ones otherwise, all eight heuristics (switched in flight through the non-const policy accessor), MT bool/int '
+                   'sets and relations under every rule, EV+ sets, 1..6 live edges sharing nodes, warm and cold compute tables, a bystander forest (sometimes '
+                   'itself reordered, sharing the order object); observed: getVariableOrder == target, by-variable table of every held edge identical, by-level '
+                   'table = the permutation of it (Spec.levelTable), verified canonical-form certificate of the dump in the shape of the NEW order, model '
+                   'evaluation of the dumped roots, reference recount, rebuilt function == held edge, follow-up operations against the pointwise oracle, bystander '
+                   'order / tables / reachable node set unchanged, reorder back to the default order == freshly built edges; sanitizer flavour in both tiers.',
+     'level_note': 'Tree-level theorems cover forests without identity-reduced positions (all set forests); for RELATION forests only the function-level '
+                   'decomposition of the variable swap into four level swaps is proved (relSwap_four_level_swaps_partial) and for EV+ nothing at tree level: those '
+                   'are tied to the specification by the differential run alone. Which schedule a heuristic takes is not predicted (node-count / '
+                   'rand()-dependent); lowest_memory is not an inversions-only schedule, its final order is only observed. Known findings reproduced by dedicated '
+                   'probe cases 0..10 and steered away from in the main cases: F3 (var2level overflow in six heuristics; ASan), LSW (policies::isLevelSwap typo: '
+                   'LEVEL swap is a silent no-op / endless loop), IDSZ (variable swap in a relation forest between adjacent variables of different sizes: '
+                   'functions change; main cases give relation forests uniform sizes).',
+     'technique': 'Lean 4 proof (inversion counting; induction on positions; canonicity) + differential correspondence over permutations x heuristics with '
+                  'verified certificates of the reordered node store',
+     'partial': ['relations: tree-level swap not modelled (function level + differential)',
+                 'EV+: no tree model (differential)',
+                 'schedule taken by a heuristic not predicted',
+                 'index-set and real-valued forests not exercised']},
+    "C20": {'title': 'Saturation over a partitioned relation equals reachability over its union',
+     'theorems': ['Meddly.Pregen.saturEvents_eq_lfp',
+                  'Meddly.Pregen.reachFix_eq_lfp',
+                  'Meddly.Pregen.closed_superset_reach',
+                  'Meddly.Pregen.saturEvents_sound',
+                  'Meddly.Pregen.reach_ignores_selfloops',
+                  'Meddly.Pregen.finalize_events_union',
+                  'Meddly.Pregen.events_topLevel_ok',
+                  'Meddly.Pregen.dropped_events_selfloops',
+                  'Meddly.Pregen.mergeByLevels_union',
+                  'Meddly.Pregen.finalize_None_union',
+                  'Meddly.Pregen.finalize_SplitOnly_union',
+                  'Meddly.Pregen.finalize_SplitSubtract_union',
+                  'Meddly.Pregen.finalize_SplitSubtractAll_union',
+                  'Meddly.Pregen.finalize_MonolithicSplit_union',
+                  'Meddly.Pregen.topLevel_ok',
+                  'Meddly.Pregen.pregen_events_sat_eq_reach',
+                  'Meddly.Pregen.pregen_levels_sat_eq_reach',
+                  'Meddly.Pregen.equals_monolithic',
+                  'Meddly.Pregen.renormLevels_ok',
+                  'Meddly.DD.canon'],
+     'quick': [{'family': 'pregen', 'flavor': 'plain', 'args': {}}],
+     'thorough': [{'family': 'pregen', 'flavor': 'asan', 'args': {}}],
+     'leanchecker': ['MeddlyModel.Ops.Pregen'],
+     'design_ref': 'DESIGN.md §5 C20',
+     'level_text': 'Lean model of pregen_relation on the level of sets of pairs over tuple states, as coded: root level of a relation (topOf, the least level it '
+                   'fits = the DD root level in an identity-reduced forest), by-events bucket sort (finalizeByEvents), by-levels addToRelation (mergeByLevels), '
+                   "splitMxd's common diagonal, the SplitOnly / SplitSubtract / SplitSubtractAll main loop with its empty-diagonal shortcut, the closing "
+                   'subtraction loop, unionLevels, finalize(option). Theorems for ALL domains, event lists and options: every option keeps the union of the levels '
+                   '(finalize_<opt>_union), what is stored at level k is the identity above k and independent of the variables above k (topLevel_ok, '
+                   'events_topLevel_ok), dropped level-0 events and level-0 leftovers are self-loops; the chaotic-iteration lemma (ANY firing schedule over the '
+                   'per-level relations that ends closed = the reachable set of the union: saturEvents_eq_lfp, composed in pregen_events_sat_eq_reach / '
+                   "pregen_levels_sat_eq_reach for both construction modes and every option); reachFix_eq_lfp: the acceptor's specification is the least fixed "
+                   'point; equals_monolithic: two reduced results denoting that set are the same edge (DD.canon). Tie: random event lists (1..6 events; local / '
+                   'guarded / self-loop / sparse / rotate / havoc / identity / empty / full generators) on 17 domain shapes, both modes x all 5 options, several '
+                   'initial sets, set forest fully or quasi reduced; the real SATURATION_FORWARD result is compared with the specification table, with '
+                   'REACHABLE_TRAD_NOFS on the UNION (table and dd_edge ==), the per-level relations after finalize (arrayForLevel) are compared level by level '
+                   "with the model's finalize, every event's root level with topOf, operands re-read, forests audited.",
+     'level_note': 'The DD recursion saturateHelper/recFire (which sub-node is fired when, compute tables, in-place node update) is NOT modelled: it is covered as '
+                   "'some firing schedule' by the chaotic-iteration theorem plus the differential result check. The model describes the library with the repairs "
+                   'of F1 (splitMxd initIdentity overload) and F8 (unionLevels negative index) applied and without the re-bucketing proposed for F11 (renormLevels '
+                   'models it, switched on by --model-renorm 1); on the unrepaired tree the generator steers away from exactly those trigger classes '
+                   '(auto-detected through probe cases 0, 6, 12, 13) and fixed probe cases keep reporting them. Relation forests: identity-reduced (all '
+                   'combinations) and quasi-reduced (by events; by levels without splitting); fully-reduced relation forests and quasi-reduced ones with splitting '
+                   "give wrong results (F9, F10, probes). The Lean level array is a closure; the acceptor replays finalize with the model's primitives and "
+                   "tabulation (glue), compared phase by phase with the model's definitions on domains of up to 8 states.",
+     'technique': 'Lean 4 proof (set algebra on level arrays, chaotic iteration) + differential correspondence (result vs. lfp specification and vs. BFS edge) + '
+                  'structural comparison of the finalized per-level relations with the executable model',
+     'partial': ['saturateHelper/recFire DD recursion not modelled (any-schedule theorem + result check)',
+                 'backward saturation (SATURATION_BACKWARD) not exercised',
+                 "acceptor glue replays finalize with the model's primitives (phase-wise cross-check on <= 8 states)"]},
 }
 
 NOT_YET = {}
